@@ -1,6 +1,8 @@
 // Package fm holds a fast map with the mistakes the FM rules must flag.
 package fm
 
+import "github.com/unixpickle/model3d/model3d"
+
 type key [2]float64
 
 type cell struct {
@@ -125,4 +127,43 @@ func (m *GoodMap) fastToSlow() {
 		m.slowMap[c.Key] = c.Value
 	}
 	m.fastMap = nil
+}
+
+// want:MI.INPLACE a member triangle is moved behind the vertex index.
+func SnapDown(m *model3d.Mesh, z float64) {
+	m.Iterate(func(t *model3d.Triangle) {
+		for i := range t {
+			if t[i].Z < z {
+				t[i].Z = z
+			}
+		}
+	})
+}
+
+// clean:MI.INPLACE the face is taken out of the mesh while it is rewritten.
+func SnapDownBracketed(m *model3d.Mesh, z float64) {
+	m.Iterate(func(t *model3d.Triangle) {
+		m.Remove(t)
+		for i := range t {
+			if t[i].Z < z {
+				t[i].Z = z
+			}
+		}
+		m.Add(t)
+	})
+}
+
+// silent:MI.INPLACE a copy is rewritten, not the member.
+func SnapDownCopy(m *model3d.Mesh, z float64) *model3d.Mesh {
+	res := model3d.NewMesh()
+	m.Iterate(func(t *model3d.Triangle) {
+		t1 := *t
+		for i := range t1 {
+			if t1[i].Z < z {
+				t1[i].Z = z
+			}
+		}
+		res.Add(&t1)
+	})
+	return res
 }
